@@ -57,6 +57,20 @@ func c05Format(w *rt.W, id uu.ID, slow bool) {
 	}
 	w.Eval(2)
 	if slow {
+		for _, k := range []int{0, 1, 35, 36, 37, 40, 44, 45, 46, 64, 128} {
+			b, err := uu.DefaultFormatter(make([]byte, 0, k), id, uu.FormatURN)
+			if err != nil || string(b) != wantURN {
+				fail("format-urn-spare-capacity", fmt.Sprintf("DefaultFormatter(make([]byte,0,%d),FormatURN)", k), string(b), wantURN)
+			}
+			b, err = uu.DefaultFormatter(append(make([]byte, 0, k+2), "id"...), id, 0)
+			if err != nil || string(b) != "id"+want {
+				fail("format-plain-spare-capacity", fmt.Sprintf("DefaultFormatter(\"id\" with spare %d,0)", k), string(b), "id"+want)
+			}
+		}
+		if b, err := uu.Formatter(nil, id, uu.FormatURN); err != nil || string(b) != wantURN {
+			fail("format-formatter-variable", "Formatter variable", string(b), wantURN)
+		}
+		w.Eval(23)
 		if s := id.String(); s != want {
 			fail("format-string", "String", s, want)
 		}
@@ -174,6 +188,8 @@ func c05Parse(w *rt.W, text string, r uu.Rule, both bool) (accepted bool) {
 	if both {
 		g, err = uu.DefaultParser([]byte(text), r)
 		judge("DefaultParser[[]byte]", g, err)
+		g, err = uu.Parser([]byte(text), r) // the exported Parser variable is an entry point of its own
+		judge("Parser variable", g, err)
 		if len(text)%4 == 0 {
 			g, err = uu.DefaultParser(uuNamedS(text), r)
 			judge("DefaultParser[named string]", g, err)
@@ -204,7 +220,9 @@ func runC05(c *rt.Ctx) {
 	}
 	r0 := rt.NewRand(c.Seed, "C05/bg", 0)
 	bgs := []uu.ID{{}, {Higher: ^uint64(0), Lower: ^uint64(0)}, {Higher: 0xaaaaaaaaaaaaaaaa, Lower: 0x5555555555555555}, {Higher: r0.U64(), Lower: r0.U64()}, {Higher: r0.U64(), Lower: r0.U64()}, {Higher: 0xf81d4fae7dec11d0, Lower: 0xa76500a0c91e6bf6}}
-	rules := []uu.Rule{0, uu.RuleDisableURN, uu.RuleDisableUpperCaseDigits, uu.RuleDisableURN | uu.RuleDisableUpperCaseDigits}
+	// the rule is a bit set: undefined extra bits must not change what the two documented bits mean
+	rules := []uu.Rule{0, uu.RuleDisableURN, uu.RuleDisableUpperCaseDigits, uu.RuleDisableURN | uu.RuleDisableUpperCaseDigits,
+		4, uu.RuleDisableURN | 8, uu.RuleDisableUpperCaseDigits | 1<<12, ^uu.Rule(0)}
 
 	c.Serial("bit-sweep", func(w *rt.W) {
 		for _, bg := range bgs {
